@@ -51,6 +51,8 @@ MUTATIONS tried (scratch copies, VERIF_REPO; list with sed expressions in selfte
     ProcessFile; WORD1 lane table entry; overlap warning never given; automatic start off by one; last entry record
     wins / -e ignored; tail of a record longer than the 4096-byte copy buffer dropped; wrong lane count in the repaired
     LaneBytesBelow.
+  detected after the -f / +f operation sequences were added (FilterList.tla): swap-remove of a cancelled filter entry
+    reading the slot past the end (`FilterBytes[FilterCnt--]`), which only shows with -f a,b,c +f <non-last entry>.
   equivalent (exit 0, rightly): `+1` in LaneBytesBelow (cancels in the difference).
   reported as KNOWN-FINDING only: removing the repaired secondary overlap test from the fixed tree (it IS the known
     defect; becomes a VIOLATION when known_findings/C05.json flips that entry to "fixed").
